@@ -38,7 +38,7 @@ RULE = ("each run draws a body length (dense around 0, 1, 2^14+-2, 2^15, 2^16+-2
         "sizes and ciphertext cuts, and serves it over BOTH TLS backends. distinct = distinct "
         "(length, reader, buffer, cut-signature); non-trivial = body >= 1 byte and the reader or "
         "the network was not the default")
-PROBES = ["client_resumes_tls_session", "tls_session_actually_resumed", "request_in_two_records_with_the_handshake", "stray_bytes_while_handler_pending", "handler_finishes_after_request_timeout", "file_with_byte_order_mark", "status_21_to_29", "backpressure_pause_writing", "body_ge_16k", "body_ge_64k", "body_ge_6MiB", "half_closing_reader", "nauyaca_client_as_reader", "slow_reader", "bursty_reader",
+PROBES = ["file_of_exactly_max_file_size", "client_resumes_tls_session", "tls_session_actually_resumed", "request_in_two_records_with_the_handshake", "stray_bytes_while_handler_pending", "handler_finishes_after_request_timeout", "file_with_byte_order_mark", "status_21_to_29", "backpressure_pause_writing", "body_ge_16k", "body_ge_64k", "body_ge_6MiB", "half_closing_reader", "nauyaca_client_as_reader", "slow_reader", "bursty_reader",
           "ciphertext_cut", "static_file", "start_server", "very_slow_reader_over_30s"]
 COMPONENTS = {
     "real": ["nauyaca.server.protocol._send_response", "nauyaca.server.tls_protocol (TLS pump)",
@@ -108,7 +108,7 @@ def _serve_once(ch, backend, cfg, scratch):
             c = ServerConfig(host=HOST, port=1965, document_root=root,
                              certfile=pathlib.Path(fx.crt("rsa1")), keyfile=pathlib.Path(fx.key("rsa1")),
                              require_client_cert=(backend == "pyopenssl"),
-                             max_file_size=64 * 1024 * 1024)
+                             max_file_size=cfg.get("max_file_size") or 64 * 1024 * 1024)
             srv_task = asyncio.ensure_future(start_server(c, log_level="CRITICAL"))
             await asyncio.sleep(0.001)
             if srv_task.done():
@@ -122,7 +122,7 @@ def _serve_once(ch, backend, cfg, scratch):
                 root = pathlib.Path(scratch, "root")
                 root.mkdir(exist_ok=True)
                 (root / "f.gmi").write_bytes(body_bytes)
-                real = StaticFileHandler(root, max_file_size=64 * 1024 * 1024)
+                real = StaticFileHandler(root, max_file_size=cfg.get("max_file_size") or 64 * 1024 * 1024)
 
                 def handler(req):
                     r = real.handle(req)
@@ -189,7 +189,9 @@ def _serve_once(ch, backend, cfg, scratch):
         elif cfg["reader"] == "bursty":
             kw = dict(read_pause_until=cfg["pause_until"])
         pscript = [("send", url.encode() + b"\r\n")]
-        if cfg.get("split_request"):
+        if cfg.get("split_request") == 2:
+            pscript = [("send", url.encode() + b"\r"), ("sleep", 0.01), ("send", b"\n")]
+        elif cfg.get("split_request"):
             pscript = [("send", url.encode()), ("send", b"\r\n")]
         if cfg["idle_before_request"]:
             pscript = [("sleep", cfg["idle_before_request"])] + pscript
@@ -201,7 +203,7 @@ def _serve_once(ch, backend, cfg, scratch):
             # then only reads
             pscript.append(("close",))
         peer = RawPeer(net, ep, pscript, tls_ctx=fx.client_ctx(), name="reader",
-                       coalesce_first=bool(cfg.get("split_request")), tls_session=session, **kw)
+                       coalesce_first=(cfg.get("split_request") == 1), tls_session=session, **kw)
         t_end = cfg["deadline"]
         while net.now < t_end:
             await asyncio.sleep(0.25)
@@ -309,6 +311,10 @@ def run_one(ch):
     # sends its request to a 4 s handler: the complete request is still answered with the body
     cfg["hdelay"] = 0.01
     cfg["idle_before_request"] = 0.0
+    if source != "handler" and n > 0 and ch.chance("exact_limit", 0.15):
+        # a file of exactly the configured maximum size is still served
+        cfg["max_file_size"] = n
+        res.stats["file_of_exactly_max_file_size"] += 1
     if reader != "client" and n <= 300000 and hdelay_ok(cfg) and ch.chance("resume", 0.12):
         # second connection of a client that resumes its TLS session
         cfg["resume"] = True
@@ -317,7 +323,7 @@ def run_one(ch):
         res.stats["client_resumes_tls_session"] += 1
     if reader != "client" and ch.chance("split_request", 0.15):
         # URL and CRLF as two TLS records in the flight of the client's Finished
-        cfg["split_request"] = True
+        cfg["split_request"] = 1 + ch.choose("split_at_crlf", 2)     # 2: CR and LF in different reads
         res.stats["request_in_two_records_with_the_handshake"] += 1
     if source == "handler" and cfg["async_handler"] and reader != "client":
         slow = ch.choose("slowhandler", 3, [30, 1, 1])
